@@ -32,6 +32,13 @@ const goBin = "/opt/veriftools/go1.26.8/bin"
 
 var root string // /verif
 
+// repoRoot is the tree under test. It is /repo for every registered command; VERIF_REPO points
+// background sweeps (vp run --with-repo) at a snapshot so that they are not disturbed by patches that
+// are applied to /repo meanwhile. A snapshot is reached through a scratch -modfile whose replace
+// directives point at it.
+var repoRoot = "/repo"
+var modfile string
+
 type engineDef struct {
 	name  string
 	props []string
@@ -78,7 +85,7 @@ var instrumented = []string{
 }
 
 func pkgDir(importPath string) string {
-	return filepath.Join("/repo", strings.TrimPrefix(strings.TrimPrefix(importPath, "go.opentelemetry.io/otel"), "/"))
+	return filepath.Join(repoRoot, strings.TrimPrefix(strings.TrimPrefix(importPath, "go.opentelemetry.io/otel"), "/"))
 }
 
 func env() []string {
@@ -91,7 +98,11 @@ func env() []string {
 		}
 		out = append(out, kv)
 	}
-	return append(out, "GOFLAGS=-mod=mod", "GOPROXY=off", "GOSUMDB=off", "GOTOOLCHAIN=local", "GOWORK=off",
+	goflags := "GOFLAGS=-mod=mod"
+	if modfile != "" {
+		goflags += " -modfile=" + modfile
+	}
+	return append(out, goflags, "GOPROXY=off", "GOSUMDB=off", "GOTOOLCHAIN=local", "GOWORK=off",
 		"PATH="+goBin+":"+os.Getenv("PATH"))
 }
 
@@ -146,7 +157,10 @@ func buildTools() string {
 		}
 	}
 	os.MkdirAll(filepath.Dir(bin), 0o755)
+	saved := modfile
+	modfile = "" // simgen is its own module
 	out, err := run(filepath.Join(root, "simgen"), 10*time.Minute, "go", "build", "-o", bin, ".")
+	modfile = saved
 	if err != nil {
 		die(2, "building simgen failed: %v\n%s", err, out)
 	}
@@ -176,7 +190,7 @@ func overlay() (dir string, hash string) {
 	}
 	// go.mod files decide what is loaded
 	for _, m := range []string{"", "sdk", "sdk/metric", "sdk/log", "exporters/prometheus"} {
-		fileHash(h, filepath.Join("/repo", m, "go.mod"))
+		fileHash(h, filepath.Join(repoRoot, m, "go.mod"))
 	}
 	add := filepath.Join(root, "overlays")
 	filepath.Walk(add, func(path string, fi os.FileInfo, err error) error {
@@ -193,7 +207,7 @@ func overlay() (dir string, hash string) {
 	tmp := dir + ".tmp" + strconv.Itoa(os.Getpid())
 	os.RemoveAll(tmp)
 	os.MkdirAll(tmp, 0o755)
-	args := []string{"-out", tmp, "-dir", root, "-add", add}
+	args := []string{"-out", tmp, "-dir", root, "-add", add, "-repo", repoRoot}
 	args = append(args, instrumented...)
 	out, err := run(root, 15*time.Minute, simgen, args...)
 	if err != nil {
@@ -458,6 +472,22 @@ func main() {
 	if _, err := os.Stat(filepath.Join(root, "simrt")); err != nil {
 		die(2, "must run with cwd=/verif (or VERIF_ROOT set)")
 	}
+	if v := os.Getenv("VERIF_REPO"); v != "" && v != "/repo" {
+		repoRoot = filepath.Clean(v)
+		b, err := os.ReadFile(filepath.Join(root, "go.mod"))
+		if err != nil {
+			die(2, "%v", err)
+		}
+		dir := filepath.Join(root, ".cache", "modfile", fmt.Sprintf("%x", sha256.Sum256([]byte(repoRoot)))[:12])
+		os.MkdirAll(dir, 0o755)
+		modfile = filepath.Join(dir, "go.mod")
+		nb := strings.ReplaceAll(string(b), "=> /repo", "=> "+repoRoot)
+		os.WriteFile(modfile, []byte(nb), 0o644)
+		if sum, err := os.ReadFile(filepath.Join(root, "go.sum")); err == nil {
+			os.WriteFile(filepath.Join(dir, "go.sum"), sum, 0o644)
+		}
+		fmt.Fprintf(os.Stderr, "check: tree under test is %s (VERIF_REPO)\n", repoRoot)
+	}
 	if len(os.Args) < 2 {
 		die(2, "usage: check <property> quick|thorough | check <property> --replay <file> | check selftest-determinism [engine...] | check build")
 	}
@@ -692,7 +722,7 @@ func explore(prop string, eng *engineDef, tier string) int {
 					groups[key] = g
 				}
 				g.count++
-				if g.best == nil || tapeLen(r.Tape) < tapeLen(g.best.Tape) {
+				if len(r.Tape) > 0 && (g.best == nil || tapeLen(r.Tape) < tapeLen(g.best.Tape)) {
 					g.best = r
 				}
 			}
@@ -721,6 +751,10 @@ func explore(prop string, eng *engineDef, tier string) int {
 	}
 	for _, k := range keys {
 		g := groups[k]
+		if g.best == nil {
+			harnessTrouble = fmt.Sprintf("violation group %s has no run with a recorded tape", g.sig)
+			continue
+		}
 		kf := matchKnown(known, prop, g.sig)
 		var msg string
 		for _, v := range g.best.Violations {
